@@ -791,6 +791,48 @@ def impl_find_dependency(a):
         return err("LEAK:" + type(e).__name__)
 
 
+def gen_field_type(rng, tier):
+    """(1) every member of the live DataType enumeration, directly; (2) every member under each
+    derivation step (restriction, restriction with a pattern, list, unions around it, a member that
+    follows a patterned one); (3) random nestings"""
+    decls = G.TYPE_DECLS
+    codes = G.datatype_codes()
+    for c in codes:
+        yield {"type": {"b": c}, "decls": decls}
+    for c in codes:
+        if c == "anyType":
+            continue
+        b = {"b": c}
+        shapes = [{"r": b, "pattern": False}, {"r": b, "pattern": True}, {"r": {"r": b, "pattern": True}, "pattern": False},
+                  {"u": [b, {"b": "int"}]}, {"u": [{"r": {"b": "int"}, "pattern": True}, b]}, {"u": [b, {"r": {"b": "int"}, "pattern": True}]},
+                  {"u": [{"b": "anySimpleType"}, b]}, {"u": [{"u": [{"b": "error"}]}, b]}]
+        if c not in G.LIST_CODES:
+            shapes += [{"l": b}, {"l": {"r": b, "pattern": True}}, {"u": [{"l": b}, {"b": "date"}]}]
+        for t in (shapes if tier == "thorough" else rng.sample(shapes, 3)):
+            yield {"type": t, "decls": decls[:1] + decls[4:5] if tier != "thorough" else decls}
+    for _ in range(1500 if tier == "thorough" else 60):
+        ds = rng.sample(decls, rng.randint(1, 3))
+        yield {"type": G.gen_sty(rng, rng.randint(1, 3)), "decls": ds}
+
+
+def impl_field_type(a):
+    try:
+        return ok(G.real_field_types(a["type"], a["decls"]))
+    except Exception as e:  # noqa: BLE001
+        return err("LEAK:" + type(e).__name__ + ":" + str(e)[:80])
+
+
+def classify_field_type(a, o):
+    shape = G.sty_shape(a["type"])
+    if len(shape) > 12:
+        shape = shape[:2] + "…depth" + str(shape.count("("))
+    v = o.get("value") if isinstance(o, dict) else None
+    flags = ""
+    if isinstance(v, dict):
+        flags = ("/tokens" if v.get("tokens") else "") + ("/pattern" if v.get("pattern") else "") + ("/union" if any(" | " in f.replace("None | ", "") for f in v["fields"]) else "")
+    return shape + flags
+
+
 def _c16():
     import props.c16 as c16
 
@@ -828,6 +870,8 @@ CORRS = [
     Corr("gen.find_dependency", gen_find_dependency, impl_find_dependency,
          classify=lambda a, o: f"{a['tag']}/n={len(a['cands'])}/{'own' if a['target'] is not None else 'other'}",
          describe="ProcessAttributeTypes.find_dependency in a real container with every arrangement of same-named Element / ComplexType / SimpleType / Attribute classes vs model"),
+    Corr("gen.field_type", gen_field_type, impl_field_type, classify=classify_field_type,
+         describe="whole real pipeline + stand-in renderer (real Filters.field_type): the annotation of the field of an element / attribute (required, optional, list) of every DataType member and of user simple types (restriction with/without pattern, list, union, nested) + tokens flag vs model"),
     Corr("gen.override", gen_override, impl_override,
          classify=classify_override, describe="ValidateAttributesOverrides.validate_override on constructed child/parent attrs vs model"),
     Corr("gen.restrict_attrs", gen_restrict, impl_restrict_attrs,
